@@ -96,6 +96,9 @@ type vfC05Case struct {
 	ClientExitCode  int `json:"clientExitCode"`
 	// SlowStop: every scripted server takes 1.2 s to stop after being asked to (no fault: the runner's grace period is 5 s)
 	SlowStop bool `json:"slowStop,omitempty"`
+	// EmptyHost (mode both): the scripted servers leave the host of their start response empty, which the protocol
+	// allows: the requests then carry the documented default, 127.0.0.1
+	EmptyHost bool `json:"emptyHost,omitempty"`
 }
 
 func vfC05Suites(c vfC05Case, dir string) ([]string, map[string][]byte, error) {
@@ -280,7 +283,7 @@ func vfC05Check(c vfC05Case) error {
 		tupleList = append(tupleList, t)
 	}
 	sort.Strings(tupleList)
-	ss := vfServerScript{HTTPLog: c.Mode == "server"}
+	ss := vfServerScript{HTTPLog: c.Mode == "server", EmptyHost: c.EmptyHost}
 	if c.SlowStop {
 		ss.StopDelayMs = 1200
 	}
@@ -533,6 +536,9 @@ func vfC05Check(c vfC05Case) error {
 				return verifkit.Violf("test-name-header", "%q: raw request headers lack %q: %v\n%s", name, wantHeader, ev.RawHeaders, describe())
 			}
 		}
+		if ev.Host == "" || (c.EmptyHost && c.Mode == "both" && ev.Host != "127.0.0.1") {
+			return verifkit.Violf("request-host", "%q: the request names the host %q (the server left its host empty: %v; the default is 127.0.0.1)\n%s", name, ev.Host, c.EmptyHost, describe())
+		}
 		parts := strings.Split(p.tuple, "/")
 		if ev.HasCert != (parts[2] == "true") || ev.HasCreds != (parts[3] == "true") {
 			return verifkit.Violf("request-credentials", "%q: request has server cert=%v client creds=%v, tuple %s\n%s", name, ev.HasCert, ev.HasCreds, p.tuple, describe())
@@ -600,6 +606,7 @@ func TestVerifC05Dispatch(t *testing.T) {
 				c.MaxServers = uint(rapid.IntRange(1, 2).Draw(t, "clientMaxServers"))
 			}
 			c.Corpus = rapid.IntRange(0, 2).Draw(t, "corpus") == 0
+			c.EmptyHost = c.Mode == "both" && rapid.IntRange(0, 3).Draw(t, "emptyHost") == 0
 			if !c.Corpus {
 				modeNum := map[string]int32{"both": 0, "client": 1, "server": 2}[c.Mode]
 				c.Suites = vfGenSuites(t, modeNum)
@@ -736,7 +743,7 @@ func TestVerifC05ClientKinds(t *testing.T) {
 	// TLS with and without client certificates in one run (two kinds of TLS server instance, visited in the order of a Go
 	// map): every instance is started in its own mode with its own credentials. Repeated, since the order varies.
 	for i := 0; i < 10; i++ {
-		rows = append(rows, vfC05Case{Mode: "both", Config: "tls-certs", MaxServers: uint(1 + i%4), Order: "immediate", Procs: 4, Generalise: []int{0, 0, 0, 0, 0},
+		rows = append(rows, vfC05Case{Mode: "both", Config: "tls-certs", MaxServers: uint(1 + i%4), Order: "immediate", Procs: 4, Generalise: []int{0, 0, 0, 0, 0}, EmptyHost: i%2 == 1,
 			Suites: []vfSuite{{Name: "Basic", Cases: []vfSuiteTC{{Name: "unary/success", Stream: 1}}}, {Name: "TLS Client Certs", TLS: true, Certs: true, Cases: []vfSuiteTC{{Name: "a", Stream: 1}}}}})
 	}
 	shard, shards := verifkit.Shard()
@@ -758,3 +765,52 @@ func TestVerifC05ClientKinds(t *testing.T) {
 }
 
 var vfBindSeq atomic.Int64
+
+// TestVerifC05StartFailures: server mode with a server command that cannot be started at all (no such executable),
+// more server instances than --max-servers: the run terminates, does not succeed, and every selected permutation is
+// accounted for as not passed (the starter fails before there is any process whose end could free the slot).
+func TestVerifC05StartFailures(t *testing.T) {
+	en := verifkit.NewEnum(t, "C05StartFailures")
+	type row struct {
+		MaxServers uint `json:"maxServers"`
+	}
+	rows := []row{{1}, {2}, {4}}
+	var replay row
+	if en.ReplayCase(&replay) {
+		rows = []row{replay}
+	}
+	for _, r := range rows {
+		viol := func() error {
+			logP, errP := &vfSyncPrinter{}, &vfSyncPrinter{}
+			flags := &Flags{ServerCommand: []string{"/nonexistent/verif-no-such-server"}, MaxServers: r.MaxServers, Parallelism: 4, RunPatterns: []string{"Basic/**"}}
+			type result struct {
+				ok  bool
+				err error
+			}
+			done := make(chan result, 1)
+			go func() {
+				ok, err := Run(flags, logP, errP)
+				done <- result{ok, err}
+			}()
+			select {
+			case res := <-done:
+				out := logP.Full()
+				if res.err == nil && res.ok {
+					return verifkit.Violf("start-failures-succeed", "no server could be started, yet the run succeeded\n%s", vfTail(out, 1500))
+				}
+				if res.err == nil && !strings.Contains(out, " 0 passed") && !strings.Contains(out, "\n0 passed") {
+					return verifkit.Violf("start-failures-passed", "no server could be started, yet cases are reported as passed\n%s", vfTail(out, 1500))
+				}
+				return nil
+			case <-time.After(3 * time.Minute):
+				// nothing here is slow: no process ever starts, the reference client is in-process
+				return verifkit.Violf("run-hang-start-failures", "Run did not return within 3 minutes although every server start fails at once (--max-servers %d, several server instances)", r.MaxServers)
+			}
+		}()
+		en.Rec.Observe(r, []string{fmt.Sprintf("maxServers:%d", r.MaxServers)}, true)
+		if viol != nil && en.Fail(r, viol) {
+			break
+		}
+	}
+	en.Done(true)
+}
